@@ -252,7 +252,7 @@ Lemma ring_add_node_nodes H n r x : In x (map snd (ring_add_node H n r)) -> x = 
 Proof. apply fold_ring_insert_nodes. Qed.
 
 Lemma fold_add_node_nodes H nodes : forall r x,
-  In x (map snd (fold_left (fun acc p => ring_add_node H (fst p) acc) nodes r)) ->
+  In x (map snd (fold_left (fun acc (p : node * ninfo) => ring_add_node H (fst p) acc) nodes r)) ->
   In x (map fst nodes) \/ In x (map snd r).
 Proof.
   induction nodes as [|p t IH]; cbn; intros r x Hin; auto.
@@ -287,7 +287,7 @@ Qed.
 
 Lemma fold_add_node_nonempty H nodes : forall r,
   (forall n, vnode_hashes H n <> []) -> (nodes <> [] \/ r <> []) ->
-  fold_left (fun acc p => ring_add_node H (fst p) acc) nodes r <> [].
+  fold_left (fun acc (p : node * ninfo) => ring_add_node H (fst p) acc) nodes r <> [].
 Proof.
   induction nodes as [|p t IH]; cbn; intros r Hh Hne.
   - destruct Hne; congruence.
@@ -477,7 +477,7 @@ Proof.
   apply N.leb_gt in Hlt. rewrite Hlt.
   destruct (assign_shard strat H order st s) as [st1 r] eqn:Ea.
   destruct r as [n|e| |]; auto.
-  pose proof (assign_shard_eligible _ _ _ _ _ Ea) as He.
+  pose proof (assign_shard_eligible _ _ _ _ _ _ _ Ea) as He.
   unfold no_interf. rewrite with_reg_same.
   unfold eligible in He. destruct (aget N.eqb n (st_reg st1)) as [i|]; [|discriminate].
   now rewrite He.
@@ -517,7 +517,7 @@ Theorem route_eligible_before strat H order st s st' n :
   route_write strat H order st s = (st', Done n) -> eligible (st_reg st) n = true.
 Proof.
   rewrite route_write_is_assign. intros Ha.
-  rewrite <- (assign_shard_keeps_eligibility _ _ _ _ _ n Ha). eapply assign_shard_eligible; eauto.
+  rewrite <- (assign_shard_keeps_eligibility _ _ _ _ _ _ _ n Ha). eapply assign_shard_eligible; eauto.
 Qed.
 
 (* the returned node is the node the shard is assigned to *)
@@ -553,8 +553,8 @@ Proof.
               | Some n => if eligible (st_reg st) n then Some n else None
               | None => None end) as [n|]; [cbn; eauto|].
     destruct (healthy_ingesters order (st_reg st)) as [|p t] eqn:Eh; [congruence|].
-    destruct (ring_get_nonempty (ring_build H (p :: t)) (shard_hash H s)) as [n Hn].
-    { apply ring_build_nonempty; auto. }
+    assert (Hrb : ring_build H (p :: t) <> []) by (apply ring_build_nonempty; auto).
+    destruct (ring_get_nonempty _ (shard_hash H s) Hrb) as [n Hn].
     rewrite Hn. cbn. eauto.
   - unfold assign_round_robin.
     destruct (min_by_key_some (fun i => N.of_nat (length (n_shards i))) _ Hne) as [p Hp]. rewrite Hp. cbn. eauto.
@@ -567,6 +567,10 @@ Qed.
 (* ------------------------------------------------------------------------ *)
 Definition asg_wf (st : state) : Prop := NoDup (map fst (st_asg st)).
 
+Arguments route_write : simpl never.
+Arguments rebalance : simpl never.
+Arguments heartbeat : simpl never.
+
 Lemma fold_update_shards_asg nodes : forall st,
   st_asg (fold_left (fun acc (p : node * ninfo) => update_node_shards acc (fst p)) nodes st) = st_asg st.
 Proof. induction nodes as [|p t IH]; cbn; intros st; auto. now rewrite IH. Qed.
@@ -576,30 +580,83 @@ Lemma fold_update_shards_eligible nodes m : forall st,
   = eligible (st_reg st) m.
 Proof. induction nodes as [|p t IH]; cbn; intros st; auto. now rewrite IH, eligible_update_node_shards. Qed.
 
-Lemma fold_aset_nodup (moves : list (shard * node * node)) : forall a,
-  NoDup (map fst a) ->
-  NoDup (map fst (fold_left (fun a m => aset N.eqb (fst (fst m)) (snd m) a) moves a)).
+Lemma apply_moves_nodup moves : forall a, NoDup (map fst a) -> NoDup (map fst (apply_moves moves a)).
 Proof. induction moves as [|m t IH]; cbn; intros a Hnd; auto. apply IH, nodup_aset, Hnd. Qed.
+
+Lemma rebalance_moves_sound H r a s o x :
+  In (s, o, x) (rebalance_moves H r a) ->
+  In (s, o) a /\ ring_get r (shard_hash H s) = Some x /\ x <> o.
+Proof.
+  unfold rebalance_moves. rewrite in_flat_map. intros [[qs qn] [Hq Hin]]. cbn in Hin.
+  destruct (ring_get r (shard_hash H qs)) as [y|] eqn:Ey; [|contradiction].
+  destruct (N.eqb y qn) eqn:E; [contradiction|]. destruct Hin as [Heq|[]].
+  inversion Heq; subst. repeat split; auto. intros ->. now rewrite N.eqb_refl in E.
+Qed.
+
+Lemma rebalance_moves_complete H r a s o x :
+  In (s, o) a -> ring_get r (shard_hash H s) = Some x -> x <> o -> In (s, o, x) (rebalance_moves H r a).
+Proof.
+  intros Hin Hx Hne. unfold rebalance_moves. apply in_flat_map. exists (s, o). split; auto.
+  cbn. rewrite Hx. destruct (N.eqb x o) eqn:E; [apply N.eqb_eq in E; contradiction|now left].
+Qed.
+
+Lemma apply_moves_other s moves : forall a,
+  (forall mv, In mv moves -> fst (fst mv) <> s) -> aget N.eqb s (apply_moves moves a) = aget N.eqb s a.
+Proof.
+  induction moves as [|m t IH]; cbn; intros a Hm; auto.
+  rewrite IH by (intros; apply Hm; now right).
+  apply aget_aset_other. intros E. apply (Hm m); auto.
+Qed.
+
+(* if every move of shard s goes to x, then after the moves s is on x or was never moved *)
+Lemma apply_moves_get s x n moves : forall a,
+  (forall mv, In mv moves -> fst (fst mv) = s -> snd mv = x) ->
+  aget N.eqb s (apply_moves moves a) = Some n ->
+  n = x \/ (aget N.eqb s a = Some n /\ forall mv, In mv moves -> fst (fst mv) <> s).
+Proof.
+  induction moves as [|mv tl IH]; cbn; intros a Hall Hg.
+  - right. split; auto.
+  - destruct (IH _ (fun mv' Hin => Hall mv' (or_intror Hin)) Hg) as [->|[Hg2 Hnone]]; auto.
+    destruct (N.eq_dec (fst (fst mv)) s) as [Es|Es].
+    + subst s. rewrite aget_aset_same in Hg2. injection Hg2 as <-. left. apply Hall; auto.
+    + rewrite aget_aset_other in Hg2 by congruence. right. split; auto.
+      intros mv' [<-|Hin]; auto.
+Qed.
 
 Lemma rebalance_asg_wf H order st st' m : rebalance H order st = (st', m) -> asg_wf st -> asg_wf st'.
 Proof.
   unfold rebalance, asg_wf. destruct (healthy_ingesters order (st_reg st)) as [|p t].
   - intros Heq. inversion Heq; subst. auto.
-  - intros Heq Hwf. inversion Heq; subst. rewrite fold_update_shards_asg. cbn. now apply fold_aset_nodup.
+  - intros Heq Hwf. inversion Heq; subst. rewrite fold_update_shards_asg. cbn. now apply apply_moves_nodup.
+Qed.
+
+Lemma rebalance_keeps_unassigned H order st st' m s :
+  rebalance H order st = (st', m) -> aget N.eqb s (st_asg st) = None -> aget N.eqb s (st_asg st') = None.
+Proof.
+  unfold rebalance. destruct (healthy_ingesters order (st_reg st)) as [|p t].
+  - intros Heq. inversion Heq; subst. auto.
+  - intros Heq Hold. inversion Heq; subst. rewrite fold_update_shards_asg. cbn.
+    rewrite apply_moves_other; auto.
+    intros [[ms mo] mx] Hin. cbn. intros ->. apply rebalance_moves_sound in Hin.
+    destruct Hin as [Hin _]. apply (in_map fst) in Hin. cbn in Hin.
+    clear - Hold Hin. induction (st_asg st) as [|[k v] l IH]; cbn in *; [contradiction|].
+    destruct (N.eqb s k) eqn:E; [discriminate|].
+    destruct Hin as [->|Hin]; [now rewrite N.eqb_refl in E|auto].
 Qed.
 
 Lemma assign_shard_asg_wf strat H order st s st' r :
   assign_shard strat H order st s = (st', r) -> asg_wf st -> asg_wf st'.
 Proof.
   unfold asg_wf. intros Ha Hwf. apply assign_shard_result in Ha. inversion Ha; subst; auto.
-  - rewrite asg_update_node_shards. cbn. apply nodup_aset. congruence.
-  - congruence.
+  - rewrite asg_update_node_shards. cbn. apply nodup_aset.
+    match goal with Hq : st_asg _ = st_asg st |- _ => now rewrite Hq end.
+  - match goal with Hq : st_asg _ = st_asg st |- _ => now rewrite Hq end.
 Qed.
 
 Lemma step_asg_wf strat H st o st' r : step strat H st o = (st', r) -> asg_wf st -> asg_wf st'.
 Proof.
-  destruct o; cbn; try (intros Heq; inversion Heq; subst; auto; fail).
-  - destruct (heartbeat n (st_reg st)). intros Heq. inversion Heq; subst. auto.
+  destruct o; cbn; try (intros Heq Hwf; inversion Heq; subst; exact Hwf).
+  - destruct (heartbeat n (st_reg st)). intros Heq Hwf. inversion Heq; subst. exact Hwf.
   - destruct (rebalance H order st) as [st1 m] eqn:Er. intros Heq. inversion Heq; subst.
     eapply rebalance_asg_wf; eauto.
   - destruct (route_write strat H order st s) as [st1 r1] eqn:Er. intros Heq. inversion Heq; subst.
@@ -666,23 +723,8 @@ Theorem assigned_only_by_route strat H st o st' r s :
 Proof.
   destruct o; cbn; try (intros Heq; inversion Heq; subst; cbn; congruence).
   - destruct (heartbeat n (st_reg st)). intros Heq. inversion Heq; subst. cbn. congruence.
-  - unfold rebalance. destruct (healthy_ingesters order (st_reg st)) as [|p t].
-    + intros Heq. inversion Heq; subst. congruence.
-    + intros Heq Hold Hnew. inversion Heq; subst. exfalso. apply Hnew.
-      rewrite fold_update_shards_asg. cbn.
-      (* every move rewrites a shard that is already assigned *)
-      set (moves := flat_map _ (st_asg st)).
-      assert (Hm : forall m, In m moves -> fst (fst m) <> s).
-      { intros m Hin. unfold moves in Hin. apply in_flat_map in Hin. destruct Hin as [q [Hq Hin]].
-        destruct (ring_get _ _); [|contradiction]. destruct (N.eqb n (snd q)); [contradiction|].
-        destruct Hin as [<-|[]]. cbn. intros ->. destruct q as [qs qn]. cbn in *.
-        assert (In qs (map fst (st_asg st))) by (now apply (in_map fst) in Hq).
-        clear - Hold H0. induction (st_asg st) as [|[k v] l IH]; cbn in *; [contradiction|].
-        destruct (N.eqb qs k) eqn:E; [discriminate|]. destruct H0 as [->|Hin]; [now rewrite N.eqb_refl in E|auto]. }
-      clearbody moves. revert Hold Hm. generalize (st_asg st).
-      induction moves as [|m t' IH]; cbn; intros a Hold Hm; auto.
-      apply IH; [|intros; apply Hm; now right].
-      rewrite aget_aset_other; auto. intros E. apply (Hm m); auto.
+  - destruct (rebalance H order st) as [st1 m] eqn:Er. intros Heq Hold Hnew. inversion Heq; subst.
+    exfalso. apply Hnew. eapply rebalance_keeps_unassigned; eauto.
   - destruct (route_write strat H order st s0) as [st1 r1] eqn:Er. intros Heq Hold Hnew.
     inversion Heq; subst. exists order.
     rewrite route_write_is_assign in Er. apply assign_shard_result in Er.
@@ -698,59 +740,47 @@ Theorem rebalance_all_eligible H order st st' m s n :
   rebalance H order st = (st', m) ->
   healthy_ingesters order (st_reg st) <> [] ->
   (forall k, vnode_hashes H k <> []) ->
-  asg_wf st ->
   aget N.eqb s (st_asg st') = Some n -> eligible (st_reg st') n = true.
 Proof.
-  unfold rebalance, asg_wf.
+  unfold rebalance.
   destruct (healthy_ingesters order (st_reg st)) as [|p t] eqn:Eh; [congruence|].
-  intros Heq _ Hh Hwf. inversion Heq; subst. clear Heq.
-  rewrite fold_update_shards_asg, fold_update_shards_eligible. cbn.
+  intros Heq _ Hh. inversion Heq; subst. clear Heq.
+  rewrite fold_update_shards_asg, fold_update_shards_eligible, ?eligible_update_node_shards.
+  cbn [st_asg st_reg update_node_shards with_reg].
   set (r := ring_build H (p :: t)).
   assert (Hring : forall k x, ring_get r k = Some x -> eligible (st_reg st) x = true).
   { intros k x Hg. apply ring_get_in, ring_build_nodes, in_map_iff in Hg.
     destruct Hg as [q [<- Hin]]. rewrite <- Eh in Hin. eapply healthy_eligible; eauto. }
-  assert (Hsome : forall k, exists x, ring_get r k = Some x).
-  { intros k. apply ring_get_nonempty, ring_build_nonempty; auto. discriminate. }
-  set (moves := flat_map _ (st_asg st)).
-  (* the final assignment of s is what the ring says for s *)
-  assert (Hfinal : forall a, NoDup (map fst a) ->
-            (forall q, In q a -> forall x, ring_get r (shard_hash H (fst q)) = Some x ->
-                       x <> snd q -> In (fst q, snd q, x) moves) -> True) by auto.
-  clear Hfinal.
+  assert (Hrb : r <> []) by (apply ring_build_nonempty; auto; discriminate).
+  destruct (ring_get_nonempty r (shard_hash H s) Hrb) as [x Hx].
   intros Hget.
-  destruct (Hsome (shard_hash H s)) as [x Hx].
-  assert (Hkey : n = x \/ (aget N.eqb s (st_asg st) = Some n /\ n = x)).
-  { (* either s was moved (then its new node is x) or it kept its node, which then equals x *)
-    assert (Hmv : forall mv, In mv moves ->
-              In (fst (fst mv), snd (fst mv)) (st_asg st) /\
-              ring_get r (shard_hash H (fst (fst mv))) = Some (snd mv)).
-    { intros mv Hin. unfold moves in Hin. apply in_flat_map in Hin. destruct Hin as [q [Hq Hin]].
-      destruct (ring_get r (shard_hash H (fst q))) as [y|] eqn:Ey; [|contradiction].
-      destruct (N.eqb y (snd q)); [contradiction|]. destruct Hin as [<-|[]]. cbn.
-      split; auto. now destruct q. }
-    assert (Hcomplete : forall o, aget N.eqb s (st_asg st) = Some o -> o <> x -> In (s, o, x) moves).
-    { intros o Ho Hne. unfold moves. apply in_flat_map. exists (s, o). split; [now apply aget_In|].
-      cbn. rewrite Hx. destruct (N.eqb x o) eqn:E; [apply N.eqb_eq in E; congruence|now left]. }
-    clearbody moves.
-    (* generalise over the accumulator *)
-    assert (Hgen : forall mvs a,
-              (forall mv, In mv mvs -> fst (fst mv) = s -> snd mv = x) ->
-              aget N.eqb s (fold_left (fun a m => aset N.eqb (fst (fst m)) (snd m) a) mvs a) = Some n ->
-              n = x \/ (aget N.eqb s a = Some n /\ forall mv, In mv mvs -> fst (fst mv) <> s)).
-    { induction mvs as [|mv tl IH]; cbn; intros a Hall Hg.
-      - right. split; auto.
-      - destruct (IH _ (fun mv' Hin => Hall mv' (or_intror Hin)) Hg) as [->|[Hg2 Hnone]]; auto.
-        destruct (N.eq_dec (fst (fst mv)) s) as [Es|Es].
-        + rewrite <- Es in Hg2 at 1. rewrite Es in Hg2. rewrite <- Es, aget_aset_same in Hg2.
-          inversion Hg2. left. symmetry. apply Hall; auto.
-        + rewrite aget_aset_other in Hg2 by congruence. right. split; auto.
-          intros mv' [<-|Hin]; auto. }
-    destruct (Hgen moves (st_asg st)) as [->|[Hg Hnone]]; auto.
-    { intros mv Hin Es. destruct (Hmv mv Hin) as [_ Hr]. rewrite Es, Hx in Hr. now inversion Hr. }
-    right. split; auto.
-    destruct (N.eq_dec n x) as [|Hne]; auto.
-    exfalso. apply (Hnone (s, n, x)); auto. }
-  destruct Hkey as [->|[_ ->]]; eapply Hring; eauto.
+  assert (Hall : forall mv, In mv (rebalance_moves H r (st_asg st)) -> fst (fst mv) = s -> snd mv = x).
+  { intros [[ms mo] mx] Hin. cbn. intros ->. apply rebalance_moves_sound in Hin.
+    destruct Hin as [_ [Hr _]]. rewrite Hx in Hr. now inversion Hr. }
+  destruct (apply_moves_get s x n _ _ Hall Hget) as [->|[Hg Hnone]].
+  - eapply Hring; eauto.
+  - destruct (N.eq_dec x n) as [->|Hne]; [eapply Hring; eauto|].
+    exfalso. apply (Hnone (s, n, x)); auto.
+    apply rebalance_moves_complete; auto. now apply aget_In.
+Qed.
+
+(* the property in one statement: after every history, under every strategy, for every shard
+   and every iteration order, route_write returns — either a node that is registered, healthy,
+   of an ingesting type and below the load threshold (and the shard is assigned to exactly that
+   node), or an error; it neither hangs nor panics *)
+Theorem route_total_and_eligible strat H h s order :
+  match route_write strat H order (run strat H h) s with
+  | (st', Done n) =>
+      (exists i, aget N.eqb n (st_reg st') = Some i /\ eligible_spec i) /\
+      aget N.eqb s (st_asg st') = Some n
+  | (_, Failed _) => True
+  | (_, Hang) | (_, Panic) => False
+  end.
+Proof.
+  destruct (route_write strat H order (run strat H h) s) as [st' r] eqn:Er.
+  pose proof (route_returns strat H order (run strat H h) s) as [Hh Hp]. rewrite Er in Hh, Hp. cbn in Hh, Hp.
+  destruct r as [n|e| |]; auto.
+  split; [eapply route_eligible; eauto|eapply route_result_assigned; eauto].
 Qed.
 
 (* ------------------------------------------------------------------------ *)
@@ -769,12 +799,26 @@ Proof. intros Ha Hg Hc. cbn [legacy_route_write]. now rewrite Ha, Hg, Hc. Qed.
 
 Definition witness_loop_state : state :=
   mkState [(0, mkNode Ingester Draining 0 [2; 3])] [(2, 0)] [(5%Z, 0)].
+Definition witness_assigned_state : state :=
+  mkState [(0, mkNode Ingester Draining 0 [2; 3])] [(2, 0); (3, 0)] [(5%Z, 0)].
+
+(* one turn of the recursion: assign to the drained node 0 again, see that it cannot accept
+   writes, unassign, call again — in the same state as before *)
+Lemma legacy_loop_step st f :
+  st = witness_state \/ st = witness_loop_state ->
+  legacy_route_write (S f) ConsistentHash witness_hashes [0] st 3
+  = legacy_route_write f ConsistentHash witness_hashes [0] witness_loop_state 3.
+Proof.
+  intros [-> | ->];
+    apply (legacy_route_unfold ConsistentHash witness_hashes [0] _ 3 f witness_assigned_state 0
+             (mkNode Ingester Draining 0 [2; 3])); vm_compute; reflexivity.
+Qed.
 
 Lemma legacy_loops_from_loop_state : forall fuel,
   snd (legacy_route_write fuel ConsistentHash witness_hashes [0] witness_loop_state 3) = Hang.
 Proof.
   induction fuel as [|f IH]; [reflexivity|].
-  erewrite legacy_route_unfold; [exact IH| | |]; vm_compute; reflexivity.
+  rewrite legacy_loop_step by (now right). exact IH.
 Qed.
 
 (* pre-fix: routing any shard after the only ring node was drained never returns *)
@@ -782,7 +826,7 @@ Theorem prefix_route_loops_forever : forall fuel,
   snd (legacy_route_write fuel ConsistentHash witness_hashes [0] witness_state 3) = Hang.
 Proof.
   destruct fuel as [|f]; [reflexivity|].
-  erewrite legacy_route_unfold; [apply legacy_loops_from_loop_state| | |]; vm_compute; reflexivity.
+  rewrite legacy_loop_step by (now left). apply legacy_loops_from_loop_state.
 Qed.
 
 (* the same state, repaired code: an error (no node can accept writes), at once *)
